@@ -40,6 +40,7 @@ class Models(Simd):
         R(r"core::slice::<impl \[.*\]>::(first|first_mut|last|last_mut)$", self.m_first_last)
         R(r"core::slice::<impl \[.*\]>::is_empty$", lambda ip, fv, st, d, t, n, a, dty: I(0, 1))
         R(r"core::slice::<impl \[.*\]>::copy_from_slice$|clone_from_slice$", self.m_copy_from_slice)
+        R(r"^core::slice::<impl \[.*\]>::fill$", self.m_slice_fill)
         R(r"ops::Index(Mut)?<core::ops::Range(Full|To<usize>|From<usize>|Inclusive<usize>|ToInclusive<usize>|<usize>)>.*::index(_mut)?$", self.m_index_range)
         R(r"core::array::<impl core::ops::Index(Mut)?<.*> for \[.*\]>::index(_mut)?$|core::slice::index::<impl core::ops::Index(Mut)?<.*> for \[.*\]>::index(_mut)?$", self.m_index_range)
         R(r"generic_array::GenericArray(::)?<.*>::as_(mut_)?slice$|generic_array::GenericArray<.*> as core::ops::Deref(Mut)?>::deref(_mut)?$", self.m_unsize_ref)
@@ -64,7 +65,7 @@ class Models(Simd):
         R(r"<bool as core::convert::From<subtle::Choice>>::from$|<subtle::Choice as core::convert::Into<bool>>::into$|impl core::convert::From<subtle::Choice> for bool>::from$", self.m_choice_unwrap)
         R(r"subtle::ConditionallyNegatable>::conditional_negate$", self.m_cond_negate)
         R(r"<subtle::Choice as core::ops::Not>::not$", self.m_choice_not)
-        R(r"<subtle::Choice as core::ops::(BitAnd|BitOr|BitXor)>::(bitand|bitor|bitxor)$", lambda ip, fv, st, d, t, n, a, dty: ("st", (I(0, 1),)))
+        R(r"<subtle::Choice as core::ops::(BitAnd|BitOr|BitXor)>::(bitand|bitor|bitxor)$", self.m_choice_bitop)
         R(r"<(u|i)\d+ as subtle::ConstantTimeEq>::ct_eq$|<\[.*\] as subtle::ConstantTimeEq>::ct_eq$|subtle::ConstantTimeEq>::ct_(eq|ne)$|subtle::ConstantTime(Greater|Less)>::ct_(gt|lt)$", lambda ip, fv, st, d, t, n, a, dty: ("st", (I(0, 1),)))
         R(r"<(u|i)\d+ as subtle::ConditionallySelectable>::conditional_select$", self.m_int_select)
         R(r"<(u|i)\d+ as subtle::ConditionallySelectable>::conditional_assign$", self.m_int_cassign)
@@ -83,6 +84,7 @@ class Models(Simd):
         R(r"alloc::vec::Vec(::)?<.*>::len$", self.m_len)
         R(r"as core::iter::Iterator>::collect::<.*Vec<", self.m_collect_vec)
         R(r"alloc::vec::Vec<.*> as core::ops::Index(Mut)?<usize>>::index(_mut)?$", self.m_index_range)
+        R(r"^core::slice::<impl \[.*\]>::split_at(_mut)?$", self.m_split_at)
         R(r"as core::iter::Iterator>::fold::<", self.m_fold)
         R(r"as core::iter::Iterator>::(find|position|rposition|find_map|last|max|min|nth)(::<.*>)?$", self.m_find)
         R(r"as core::iter::Iterator>::size_hint$|as core::iter::ExactSizeIterator>::len$", self.m_size_hint)
@@ -751,6 +753,27 @@ class Models(Simd):
             return NotImplemented
         op = re.search(r">::(find|position|rposition|find_map|last|max|min|nth)", n).group(1)
         lo, hi = self.iter_len(ip, st, it)
+        if op in ("find", "position") and getattr(ip, "exact_small_vecs", False) and lo == hi and hi <= 4096 and len(a) == 2:
+            # domain engines: an iterator of exactly known length is searched element by element with the predicate itself, as long as the
+            # predicate's verdict is definite; the first element it accepts is the answer (a later element is never looked at)
+            cur = it
+            for k in range(hi):
+                item, new = self.step(ip, st, cur)
+                if item[0] != "en" or len(item[1]) != 1 or item[1][0][0] != 1:
+                    break
+                x = item[1][0][1][0]
+                arg = x if op == "position" else (x if x[0] in ("ref", "sl", "cref") and False else ip.intern_const(st, x))
+                v = ip.deconst(self.apply_closure(ip, st, a[1], [arg]))
+                if v is None or v[0] != "i" or v[1] != v[2]:
+                    break
+                cur = new if new is not None else cur
+                if v[1] == 1:
+                    if a[0][0] == "ref":
+                        fr = st.frames[a[0][1]]
+                        fr[a[0][2]] = ip.write_path(fr.get(a[0][2], TOP), a[0][3], cur)
+                    return ("en", ((1, (x if op == "find" else I(k),)),))
+            else:
+                return ("en", ((0, ()),))
         if op in ("position", "rposition"):
             return ("en", ((0, ()), (1, (I(0, max(hi - 1, 0)),)))) if hi > 0 else ("en", ((0, ()),))
         if op == "find_map":
@@ -919,6 +942,32 @@ class Models(Simd):
             ip.havoc(st, ("ref", dst[1], dst[2], dst[3]))
         return ("st", ())
 
+    def m_slice_fill(self, ip, fv, st, depth, t, n, a, dty):
+        """s.fill(v): every element of the slice becomes v (strong update for arrays and whole vectors, weak join for a sub-slice of unknown position)"""
+        dst, val = a[0], ip.deconst(a[1])
+        if dst[0] in ("ref", "sl"):
+            d = ("ref", dst[1], dst[2], dst[3])
+            cur = st.frames[d[1]].get(d[2], TOP)
+            tgt = ip.read_path(cur, d[3])
+            if dst[0] == "ref" and tgt[0] == "arr":
+                new = ("arr", (val,) * len(tgt[1]))
+            elif dst[0] == "ref" and tgt[0] == "vec":
+                new = ("vec", val, tgt[2], tgt[3])
+            elif dst[0] == "sl" and tgt[0] == "arr" and dst[4] == dst[5] and dst[6] == dst[7]:
+                items = list(tgt[1])
+                for i in range(dst[4], min(dst[4] + dst[6], len(items))):
+                    items[i] = val
+                new = ("arr", tuple(items))
+            elif tgt[0] == "arr":
+                new = ("arr", tuple(join(x, val) for x in tgt[1]))
+            elif tgt[0] == "vec":
+                new = ("vec", join(tgt[1], val) if tgt[1] is not None else val, tgt[2], tgt[3])
+            else:
+                ip.havoc(st, d)
+                return ("st", ())
+            st.frames[d[1]][d[2]] = ip.write_path(cur, d[3], new)
+        return ("st", ())
+
     def slice_values(self, ip, st, v):
         """list of element values of a slice/array reference with constant bounds, else None"""
         if v[0] == "cref" and v[1][0] == "arr":
@@ -981,6 +1030,9 @@ class Models(Simd):
         elif rng[0] == "i":
             # plain usize index through the Index trait
             ok = rng[2] < ln[1]
+            if not ok and t.get("args") and len(t["args"]) == 2 and t["args"][0][0] in ("c", "m"):
+                import relbounds
+                ok = relbounds.proves(ip.F, fv.f, t["args"][1], t["args"][0][1])      # the `for i in 0..n` idiom over a container of length n
             ip.record(fv, "call:index", ip.assert_detail_call(fv, t), t["line"], ok, "index %s, len %s" % (show_val(rng), show_val(ln)))
             if base[0] == "ref":
                 return ("ref", base[1], base[2], base[3] + (("i", rng[1] if rng[1] == rng[2] else (rng[1], rng[2])),))
@@ -1004,6 +1056,17 @@ class Models(Simd):
         if base[0] == "cref" and base[1][0] == "arr" and lo[1] == lo[2] and hi[1] == hi[2]:
             return ("cref", ("arr", base[1][1][lo[1]:hi[1]]))
         return TOP
+
+    def m_split_at(self, ip, fv, st, depth, t, n, a, dty):
+        """s.split_at(mid) = (&s[..mid], &s[mid..]); panics when mid > len - the two range-index obligations say exactly that"""
+        base, mid = a[0], ip.deconst(a[1])
+        if mid is None or mid[0] != "i":
+            return TOP
+        ln = ip.length_of(st, base)
+        nm = "ops::Index<core::ops::Range<usize>>::index"
+        left = self.m_index_range(ip, fv, st, depth, t, nm, [base, ("st", (I(0), mid))], dty)
+        right = self.m_index_range(ip, fv, st, depth, t, nm, [base, ("st", (mid, ln))], dty)
+        return ("st", (left, right))
 
     def m_identity_ref(self, ip, fv, st, depth, t, n, a, dty):
         v = a[0]
@@ -1214,6 +1277,17 @@ class Models(Simd):
         if v[0] == "st" and v[1] and v[1][0][0] == "i":
             x = v[1][0]
             return ("st", (I(1 - x[2], 1 - x[1]),))
+        return ("st", (I(0, 1),))
+
+    def m_choice_bitop(self, ip, fv, st, depth, t, n, a, dty):
+        x, y = self.choice_val(ip, st, a[0]), self.choice_val(ip, st, a[1])
+        x, y = I(max(x[1], 0), min(x[2], 1)), I(max(y[1], 0), min(y[2], 1))
+        if n.endswith("bitand"):
+            return ("st", (I(x[1] & y[1], x[2] & y[2]),))
+        if n.endswith("bitor"):
+            return ("st", (I(x[1] | y[1], x[2] | y[2]),))
+        if x[1] == x[2] and y[1] == y[2]:
+            return ("st", (I(x[1] ^ y[1]),))
         return ("st", (I(0, 1),))
 
     def choice_val(self, ip, st, c):
